@@ -1,5 +1,6 @@
 import Goloop.Base.Proto
 import Goloop.Model.C09
+import Goloop.Model.C09Retry
 namespace Goloop.Driver.C09
 open Goloop Goloop.C09
 
@@ -29,6 +30,8 @@ def stepOf (nacc : Nat) (s : String) : Option Step :=
     not change what the transaction finally observes and writes: the model ignores it -/
 def stripRetry (s : String) : String :=
   if s.endsWith "!" then String.ofList (s.toList.dropLast) else s
+
+def retryOf (s : String) : Bool := s.endsWith "!"
 
 def txOf (nacc : Nat) (s0 : String) : Option Tx :=
   let s := stripRetry s0
@@ -60,12 +63,48 @@ def showObs (o : List (Option Nat)) : String :=
 def isPerm (n : Nat) (l : List Nat) : Bool :=
   l.length = n && l.all (· < n) && l.eraseDups.length = n
 
+/-- fire a list of events of the retry system, each of which must be enabled -/
+def fireAll (txs : List Tx) (retry : List Bool) (lks : List Locks) (r : RSim) (evs : List Ev) : Option RSim :=
+  runEv true txs retry lks evs r
+
+/-- what the harness does when the schedule picks transaction `i`: a retrying world write locker
+    takes its start snapshot when it is first scheduled; a program step is a step; the Commit of a
+    retrying transaction is: Reset to the start snapshot, the whole program again, Commit -/
+def macroFor (txs : List Tx) (retry : List Bool) (lks : List Locks) (r : RSim) (i : Nat) : List Ev :=
+  let isRetry := retry.getD i false
+  let prog := (txs.getD i ⟨[], []⟩).prog
+  let pc := (r.sim.sts.getD i {}).pc
+  let pre := if isRetry && !(rsOf r i).snapped then [Ev.snap i] else []
+  if pc < prog.length then pre ++ [Ev.act i]
+  else if isRetry then pre ++ [Ev.reset i] ++ List.replicate prog.length (Ev.act i) ++ [Ev.act i]
+  else [Ev.act i]
+
+/-- `simulate` on the retry system, events in the harness's order -/
+def simulateR (txs : List Tx) (retry : List Bool) (lks : List Locks) : Nat → RSim → Sched → Option RSim
+  | 0, r, _ => some r
+  | f + 1, r, sc =>
+    if (List.range txs.length).all (fun i => r.sim.isCommitted i) then some r
+    else
+      let en := enabledList txs lks r.sim
+      match pick txs lks r.sim en sc with
+      | none => none
+      | some (i, sc') =>
+        match fireAll txs retry lks r (macroFor txs retry lks r i) with
+        | none => none
+        | some r' => simulateR txs retry lks f r' sc'
+
+/-- account-lock snapshots are taken as soon as the virtual states exist -/
+def initialSnaps (txs : List Tx) (retry : List Bool) (lks : List Locks) : List Ev :=
+  (List.range txs.length).filterMap (fun i =>
+    if retry.getD i false && (lks.getD i ⟨0, []⟩).world != 2 then some (Ev.snap i) else none)
+
 def run (mode : String) (nacc n : Nat) (rest : List String) : String :=
   if nacc < 1 ∨ nacc > 16 ∨ n > 32 ∨ rest.length < n + 1 then "bad-op"
   else
     let kind := rest.getD n ""
     match (rest.take n).mapM (txOf nacc), (rest.drop (n + 1)).mapM (fun t => digits t 6) with
     | some txs, some sched =>
+      let retry := (rest.take n).map retryOf
       if kind ≠ "s" ∧ kind ≠ "p" then "bad-op"
       else if kind = "p" ∧ !(isPerm n sched) then "bad-op"
       else
@@ -75,9 +114,11 @@ def run (mode : String) (nacc n : Nat) (rest : List String) : String :=
         else if txs.any (fun t => t.reqs.any (fun r => r.acct.isNone && r.lock = .read)) then "unsupported"
         else
           let sc := if mode = "f" then Sched.toks [] else if kind = "p" then Sched.prio sched else Sched.toks sched
-          match simulate txs lks (fuelFor txs) (simInit nacc txs) sc with
+          match (fireAll txs retry lks (rInit nacc txs) (initialSnaps txs retry lks)).bind
+              (fun r0 => simulateR txs retry lks (fuelFor txs) r0 sc) with
           | none => "deadlock"
-          | some s =>
+          | some r =>
+            let s := r.sim
             if !((List.range txs.length).all (fun i => s.isCommitted i)) then "deadlock"
             else
               let d := joinOr ";" (lks.map showDep)
